@@ -401,9 +401,29 @@ func c06Run1(c c06Case) (v vVerdict) {
 					return nil
 				})
 			}
+			basePathBefore := ds.ComputeWritingState().BasePath
+			anyProj := false
+			for ch := 0; ch < c.Nchan; ch++ {
+				anyProj = anyProj || ds.processors[ch].HasProjectors()
+			}
 			err := ds.WriteControl(cfg)
 			after := c06Snapshot(ds)
 			up := strings.ToUpper(op.Request)
+			if err != nil && strings.HasPrefix(up, "START") && !before.Active && op.Path <= 1 && (op.LJH22 || op.LJH3 || op.OFF) && (!op.OFF || anyProj) {
+				// nothing is being written, the path is usable (explicit, or the remembered base path), a file type is named (OFF only with projectors loaded)
+				return vFailf("valid-start-rejected", "op %d: WriteControl(%q types %v/%v/%v, path %q; remembered base path %q) while idle was rejected: %v",
+					i, op.Request, op.LJH22, op.LJH3, op.OFF, cfg.Path, basePathBefore, err)
+			}
+			if err == nil && strings.HasPrefix(up, "START") {
+				wantBase := basePathBefore
+				if cfg.Path != "" {
+					wantBase = cfg.Path
+				}
+				if got := ds.ComputeWritingState().BasePath; got != wantBase {
+					return vFailf("basepath-misreported", "op %d: START with path %q (remembered base path %q) succeeded and writes to %s, but the reported base path is %q",
+						i, cfg.Path, basePathBefore, after.Pattern, got)
+				}
+			}
 			if err != nil {
 				if after != before {
 					return vFailf("rejected-request-changed-state", "op %d: WriteControl(%q types %v/%v/%v path %d) returned %v, yet the reported state changed from %+v to %+v",
